@@ -69,7 +69,7 @@ def scratch_tree(repo):
 
 
 def run_check_on(pid, tree):
-    c = subprocess.run([os.path.join(VERIF, 'bin', 'check'), pid, '--repo', tree, '--tier', 'quick'], stdout=subprocess.PIPE, stderr=subprocess.STDOUT)
+    c = subprocess.run([os.path.join(VERIF, 'bin', 'check'), pid, '--repo', tree, '--tier', 'quick', '--evidence-dir', os.path.join(tree, '.verif-ev')], stdout=subprocess.PIPE, stderr=subprocess.STDOUT)
     out = c.stdout.decode(errors='replace')
     rules = sorted(set(re.findall(r'violated (\S+) in', out)))
     return c.returncode, rules
